@@ -24,6 +24,7 @@ type c13Req struct {
 	Chunks   []int  `json:"chunks,omitempty"`
 	BChunks  []int  `json:"body_chunks,omitempty"`
 	TruncAt  int    `json:"trunc_at,omitempty"`
+	WFailAt  int    `json:"writer_fails_from_write,omitempty"`
 	body     []byte
 	payload  []byte
 	w        *sim.SimWriter
@@ -75,19 +76,18 @@ func genC13(x *Ctx) *c13Scen {
 	sc.Entry = entryName(sc.entry)
 	sc.Recover = tp.Bool()
 	sc.Preempt = []int{300, 100, 500, 20}[tp.G(4)]
-	nClients := tp.Range(2, 4)
+	nClients := 4
 	maxPayload := 2048
 	if x.Thorough() {
-		nClients = tp.Range(2, 6)
+		nClients = 6
 		maxPayload = 70000
 	}
 	id := 0
-	kinds := []string{"get", "get", "post-gzip", "early-close", "post-trunc", "notfound", "panic", "post-deflate"}
+	kinds := []string{"get", "get", "post-gzip", "early-close", "post-trunc", "notfound", "panic", "post-deflate", "client-gone"}
 	aes := []string{"gzip", "deflate", "gzip", "deflate, gzip", ""}
-	for c := 0; c < nClients; c++ {
+	tp.Repeat(2, nClients, 600, func(int) {
 		var reqs []*c13Req
-		n := tp.Range(1, 3)
-		for i := 0; i < n; i++ {
+		tp.Repeat(1, 3, 550, func(int) {
 			id++
 			r := &c13Req{ID: id, Kind: kinds[tp.G(len(kinds))], AE: aes[tp.G(len(aes))]}
 			r.N = tp.G(maxPayload)
@@ -96,6 +96,9 @@ func genC13(x *Ctx) *c13Scen {
 			}
 			r.Chunks = chunkPlan(tp, tp.Range(1, 4), 1+r.N)
 			r.payload = sim.PayloadBytes(fmt.Sprintf("r%d", r.ID), r.N)
+			if r.Kind == "client-gone" {
+				r.WFailAt = tp.G(4)
+			}
 			switch r.Kind {
 			case "post-gzip", "post-trunc", "post-deflate":
 				ent := echoEntity{Tok: fmt.Sprintf("tok-%d", r.ID), N: int64(r.ID) << 40, Pad: sim.PayloadText(fmt.Sprintf("p%d", r.ID), r.N%1500)}
@@ -111,9 +114,9 @@ func genC13(x *Ctx) *c13Scen {
 				}
 			}
 			reqs = append(reqs, r)
-		}
+		})
 		sc.Clients = append(sc.Clients, reqs)
-	}
+	})
 	return sc
 }
 
@@ -233,7 +236,14 @@ func runC13(x *Ctx) {
 					hr = NewReq("POST", "/p/echo", hdr, b, int64(len(r.body)), r.ID)
 				}
 				r.w = sim.NewSimWriter(t)
+				if r.Kind == "client-gone" {
+					// the client goes away: every underlying write from #WFailAt on fails
+					r.w.FaultMode, r.w.FailAt = sim.WFaultFail, r.WFailAt
+				}
 				r.escaped = Serve(c, sc.entry, r.w, hr)
+				if r.w.Fired > 0 {
+					t.Count("fault-wfail")
+				}
 				t.Yield(sim.SiteCheckpoint, sim.KCheckpoint, 0, 0)
 			}
 		})
@@ -256,7 +266,7 @@ func runC13(x *Ctx) {
 	if heldPreempt {
 		x.Count("reach:preempted-while-holding")
 	}
-	x.Res.Nontrivial = heldPreempt || s.Counts["fault-panic"]+s.Counts["fault-btrunc"]+s.Counts["fault-early-close"] > 0
+	x.Res.Nontrivial = heldPreempt || s.Counts["fault-panic"]+s.Counts["fault-btrunc"]+s.Counts["fault-early-close"]+s.Counts["fault-wfail"] > 0
 
 	for _, e := range s.Events() {
 		if e.Kind == "use-after-release" {
@@ -265,6 +275,13 @@ func runC13(x *Ctx) {
 	}
 	for _, cl := range sc.Clients {
 		for _, r := range cl {
+			if r.Kind == "client-gone" {
+				// bytes were lost by the fault; only the ledger, blocking and the other responses are judged
+				if r.escaped != nil {
+					x.Violate("panic-escaped", "request %d (client-gone): unexpected panic %v", r.ID, r.escaped)
+				}
+				continue
+			}
 			enc := r.w.H.Get("Content-Encoding")
 			got, err := Decode(enc, r.w.Body)
 			if err != nil {
